@@ -576,3 +576,61 @@ def c16_run(driver, w, snap, ev, dev, ctx):
                                ctx['cev'], o.get('status'), ctxt)})
                 break
     return out
+
+
+# ---------------------------------------------------------------------------
+# C19: an event on a child pull request or on an integration / source commit
+# is handled as an event on the parent pull request
+# ---------------------------------------------------------------------------
+def c19_plan(driver, w, snap, ev, res):
+    out = {'devs': [], 'ctx': {}, 'stats': {}}
+    if ev[0] != 'eval_pr':
+        return out
+    pre = res['pre']
+    par = [p for p in pre['prs'] if p['id'] == ev[1]]
+    if not par or par[0]['author'] == ROBOT or par[0]['state'] != 'OPEN':
+        return out
+    src = par[0]['src']
+    hs = M.heads(pre)
+    devs = []
+    for c in pre['prs']:
+        if c['author'] == ROBOT and c['state'] == 'OPEN' and \
+                M.wref_parts(c['src']) and M.wref_parts(c['src'])[1] == src:
+            devs.append(['eval_pr', c['id']])
+    qtips = {s for b, s in hs.items() if b.startswith('q/')}
+    for b, sha in hs.items():
+        if b == src or (M.wref_parts(b) and M.wref_parts(b)[1] == src):
+            # a commit that is also a queue tip is a queue event
+            if sha in qtips:
+                continue
+            # a commit shared with another pull request is ambiguous
+            others = [x for x, s2 in hs.items() if s2 == sha and x != b and
+                      not (x == src or (M.wref_parts(x) and
+                                        M.wref_parts(x)[1] == src))]
+            if others:
+                continue
+            devs.append(['eval_sha', sha])
+    out['devs'] = devs
+    out['ctx'] = {'pre_pending': pre['pending'],
+                  'post_obs': [res['post']['refs'], res['post']['prs'],
+                               res['post']['comments']],
+                  'status': res['obs'].get('status')}
+    return out
+
+
+def c19_run(driver, w, snap, ev, dev, ctx):
+    out = {'violations': [], 'stats': {'c19_redirects': 1}}
+    w.restore(snap)
+    w.set_pending(ctx['pre_pending'])
+    o = E.apply(w, dev)
+    st = w.state()
+    got = [st['refs'], st['prs'], st['comments']]
+    if got != ctx['post_obs'] or o.get('status') != ctx['status']:
+        diff = [n for n, a, b in zip(('refs', 'prs', 'comments'), got,
+                                     ctx['post_obs']) if a != b]
+        out['violations'].append({
+            'property': 'C19', 'fingerprint': 'redirect-differs:%s:%s' % (
+                dev[0], ','.join(diff)),
+            'msg': '%s is not handled like %s: status %s vs %s, differing '
+                   '%s' % (dev, ev, o.get('status'), ctx['status'], diff)})
+    return out
